@@ -40,6 +40,7 @@ type Prover struct {
 	Par      int
 	TwoAgree bool
 	cacheMu  sync.Mutex
+	Short    map[string]bool // obligations listed in assumed-obligations.jsonl or as recorded findings
 	Claimed  map[string]bool // ledger keys: obligations outside it (never discharged on the unchanged tree) get a short timeout
 }
 
@@ -140,6 +141,9 @@ func (p *Prover) discharge(ob *Ob, globals []string) *ObResult {
 	timeout := p.Timeout
 	if ob.ExpectSat && timeout > 2*time.Second {
 		timeout = 2 * time.Second // vacuity checks are best effort: "not refuted quickly"
+	}
+	if p.Short[ob.Key] && timeout > 3*time.Second {
+		timeout = 3 * time.Second // accepted as an assumption / recorded finding: tried briefly, its outcome decides nothing
 	}
 	if p.Claimed != nil && !p.Claimed[ob.Key] && ob.Kind != "nopanic" && timeout > 3*time.Second {
 		timeout = 3 * time.Second // not claimed: reported as unclaimed if it does not discharge quickly
